@@ -3,9 +3,9 @@ CONSTANTS
   ChildSeq <- PhChildSeq
   NodeIds <- SynNodeIds
   NodeRefs <- PhNodeRefs
-  GhostNodes <- SynGhosts
+  GhostNodes <- SynNoGhosts
   QueryTypes <- SynQueryTypes
-  ClassBits = {}
+  MaskSets <- SynMasksDyn
   HasSubtypeId <- HS
   Dev_IgnoreSubtypeFlag = FALSE
   Dev_DeleteLoop = FALSE
